@@ -658,9 +658,16 @@ def run(tier, seed, replay=None):
     bad_texts = []
     model_runs = 0
     if okm and tcases:
+        # balance the shards: a text of length n costs 2^(n-1) model runs; deal the texts, heaviest
+        # first, round-robin over the shards (run_cases cuts consecutive slices)
+        n_shards = max(1, min(4 * C.NPROC, len(tcases) // 50))
+        order = sorted(range(len(tcases)), key=lambda i: -len(tcases[i][2]))
+        bins = [order[k::n_shards] for k in range(n_shards)]
+        size = max(len(bn) for bn in bins)
+        bins.sort(key=len, reverse=True)           # only the last slices may be shorter
+        tcases = [tcases[i] for bn in bins for i in bn]
         terms = [coq_tcase(c[0], c[1], c[2], text, end, h) for c, end, text, h in tcases]
-        bools, err = C.run_cases(PID + "_t", PREAMBLE, terms, check_text_fn,
-                                 shard=max(50, len(terms) // (4 * C.NPROC) + 1), timeout=1500)
+        bools, err = C.run_cases(PID + "_t", PREAMBLE, terms, check_text_fn, shard=size, timeout=1500)
         if err:
             out.add_broken("correspondence:C18-stream-exhaustive(coqc)", err)
         else:
